@@ -1,4 +1,75 @@
-import EudoxiaModel.Proofs.Reach
+import EudoxiaModel.Proofs.WorldInv
+import EudoxiaModel.Model.Obs
+/-! # C03 — pool CPU and RAM are conserved: never lost, never double-freed, never oversold -/
 namespace Eudoxia.C03
-theorem placeholder : True := trivial
+open Eudoxia
+
+/-- **C03.1 + C03.2 (full strength).**  In every world reachable under arbitrary command sequences
+(assignments of any size, suspensions at any moment, legal or not, continuing after refused batches),
+in every pool: free CPU plus the CPU allocated to all running and suspending containers equals the
+pool's CPU capacity, the same for RAM; free CPU is never negative and free RAM is never negative unless
+memory overcommit is enabled; capacities never change.  Because this holds at *every* tick boundary with
+constant capacity, an allocation is returned exactly once — in the tick its container leaves the
+running/suspending lists — and never twice. -/
+theorem conserved_nonneg {w0 w : World} (g0 : w0.PoolsGood) (h : Reach w0 w) :
+    (∀ p ∈ w.pools,
+      p.availC + cpuSum p.active + cpuSum p.suspending = p.capC ∧
+      p.availR + ramSum p.active + ramSum p.suspending = p.capR ∧
+      0 ≤ p.availC ∧ (w.cfg.overcommit = false → 0 ≤ p.availR)) ∧
+    w.caps = w0.caps := by
+  obtain ⟨g, hc, _⟩ := reach_good h g0
+  exact ⟨fun p hp => ⟨(g p hp).1.cpu, (g p hp).1.ram, (g p hp).2.1, (g p hp).2.2⟩, hc⟩
+
+/-- a freshly configured executor satisfies the hypothesis of `conserved_nonneg` -/
+theorem fresh_world_good (cfg : Cfg) (npools cpus ram : Nat) :
+    ({ cfg := cfg, pools := List.replicate npools (Pool.fresh cpus ram) } : World).PoolsGood := by
+  intro p hp
+  have := List.eq_of_mem_replicate hp
+  subst this
+  exact ⟨poolInv_fresh _ _ _, by simp [Pool.NonNeg, Pool.fresh]⟩
+
+/-- **C03.3a.**  A batch whose summed CPU exceeds the pool's free CPU is refused. -/
+theorem oversold_cpu_is_refused (cfg : Cfg) (p : Pool) (as : List Asg) (h : (cpuReq as : Int) > p.availC) :
+    verifyAssignments cfg p as = .error .overCpu := oversell_cpu_refused cfg p as h
+
+/-- **C03.3b.**  Without overcommit, a batch whose summed RAM exceeds the pool's free RAM is refused. -/
+theorem oversold_ram_is_refused (cfg : Cfg) (p : Pool) (as : List Asg) (hc : (cpuReq as : Int) ≤ p.availC)
+    (ho : cfg.overcommit = false) (h : (ramReq as : Int) > p.availR) :
+    verifyAssignments cfg p as = .error .overRam := oversell_ram_refused cfg p as hc ho h
+
+/-- **C03.3c.**  A refused batch is rejected as a whole: no container of it exists afterwards (the container
+counter is unchanged and the running containers are among those that ran before). -/
+theorem refused_batch_creates_no_container {cfg : Cfg} {w w' : Store} {p p' : Pool} {n n' : Nat} {cm : Cmds} {e : Err}
+    (he : e = .overCpu ∨ e = .overRam) (h : poolTick cfg w p n cm = .error (e, some (w', p', n'))) :
+    n' = n ∧ (cids p'.active).Sublist (cids p.active) := rejected_batch_creates_nothing he h
+
+theorem isum_map_cpu (l : List Ctr) : isum ((l.map Ctr.toObs).map (fun c => (c.cpu : Int))) = cpuSum l := by
+  simp [isum, cpuSum, Ctr.toObs, List.map_map, Function.comp_def]
+theorem isum_map_ram (l : List Ctr) : isum ((l.map Ctr.toObs).map (fun c => (c.ram : Int))) = ramSum l := by
+  simp [isum, ramSum, Ctr.toObs, List.map_map, Function.comp_def]
+theorem isum_map_cpuS (l : List Ctr) : isum ((l.map Ctr.toSusObs).map (fun c => (c.cpu : Int))) = cpuSum l := by
+  simp [isum, cpuSum, Ctr.toSusObs, List.map_map, Function.comp_def]
+theorem isum_map_ramS (l : List Ctr) : isum ((l.map Ctr.toSusObs).map (fun c => (c.ram : Int))) = ramSum l := by
+  simp [isum, ramSum, Ctr.toSusObs, List.map_map, Function.comp_def]
+
+/-- **The checker evaluated on implementation traces is the theorem's statement**: on the observation of any
+pool satisfying the invariant, `conservedB` (the conservation clause of `check_C03`) is true — so every
+trace of the model passes it, and a trace of the implementation that fails it exhibits a violation. -/
+theorem checker_accepts_invariant {cfg : Cfg} {p : Pool} {n : Nat} (g : p.Good cfg n) :
+    conservedB cfg.overcommit p.toObs = true := by
+  obtain ⟨⟨hc, hr, _, _⟩, h0, h1⟩ := g
+  unfold conservedB Pool.toObs
+  simp only [isum_map_cpu, isum_map_ram, isum_map_cpuS, isum_map_ramS, Bool.and_eq_true, beq_iff_eq, decide_eq_true_eq,
+    Bool.or_eq_true]
+  refine ⟨⟨⟨hc, hr⟩, h0⟩, ?_⟩
+  cases ho : cfg.overcommit
+  · right; exact h1 ho
+  · left; rfl
+
+/-- non-vacuity: a pool with one running and one suspending container meets the invariant -/
+example : PoolInv { capC := 8, capR := 512, availC := 5, availR := 128,
+                    active := [{ cid := 0, ops := [0], cpu := 2, ram := 256, pos := { ops := [] } }],
+                    suspending := [{ cid := 1, ops := [1], cpu := 1, ram := 128, pos := { ops := [] } }] } 2 := by
+  constructor <;> simp [cpuSum, ramSum, cids]
+
 end Eudoxia.C03
